@@ -67,6 +67,10 @@ pub struct Case {
     /// number of expected fragments delivered in a row before `items` start (long series)
     #[serde(default)]
     pub prefix: u8,
+    /// unsolicited responses carry IIN1.7 (device restart): the master (an association without start-up tasks) answers
+    /// with its WRITE of g80v1, which the responder acknowledges at once
+    #[serde(default)]
+    pub unsol_restart: bool,
 }
 
 pub struct Accept;
@@ -76,7 +80,7 @@ impl Prop for Accept {
     const ID: &'static str = "C15";
     const NAME: &'static str = "accept";
     fn rule() -> &'static str {
-        "an outstanding user READ or start-up integrity poll (answer planned as 1-3 fragments, or 16-18 / 32-34 so that the series passes the wrap of the 4-bit sequence number), DIRECT_OPERATE command, link status check, or nothing; response streams mixing the expected fragment, one-deviation variants (every wrong sequence number, foreign / unknown source, FIR flipped, no CON on a non-final fragment, FIN flipped, UNS bit, IIN2 error bits, truncated / unknown objects, non-response function), unsolicited responses (new, duplicate, with/without data and CON, unknown source) and silences; oracle from the statement: success only with a complete in-order series from the addressed outstation (and always when nothing but ignorable traffic interferes), the handler sees begin/objects-in-wire-order/end exactly once per accepted fragment and never for a rejected one, every accepted CON fragment is confirmed exactly once with the same sequence number and UNS bit before the next request, a duplicate unsolicited response is confirmed but not delivered; while the start-up poll is outstanding an unsolicited response may be ignored or accepted but confirmed <=> delivered, never twice, and a later repeat of an ignored one is delivered; non-trivial = >= 1 one-deviation fragment while a task is outstanding"
+        "an outstanding user READ or start-up integrity poll (answer planned as 1-3 fragments, or 16-18 / 32-34 so that the series passes the wrap of the 4-bit sequence number), DIRECT_OPERATE command, link status check, or nothing; response streams mixing the expected fragment, one-deviation variants (every wrong sequence number, foreign / unknown source, FIR flipped, no CON on a non-final fragment, FIN flipped, UNS bit, IIN2 error bits, truncated / unknown objects, non-response function), unsolicited responses (new, duplicate, with/without data and CON, unknown source; in a quarter of the cases all of them reporting a device restart, which the master answers with its WRITE of g80v1) and silences; oracle from the statement: success only with a complete in-order series from the addressed outstation (and always when nothing but ignorable traffic interferes), the handler sees begin/objects-in-wire-order/end exactly once per accepted fragment and never for a rejected one, every accepted CON fragment is confirmed exactly once with the same sequence number and UNS bit before the next request, a duplicate unsolicited response is confirmed but not delivered; while the start-up poll is outstanding an unsolicited response may be ignored or accepted but confirmed <=> delivered, never twice, and a later repeat of an ignored one is delivered; non-trivial = >= 1 one-deviation fragment while a task is outstanding"
     }
     fn cases(tier: Tier) -> u32 {
         match tier {
@@ -119,8 +123,14 @@ impl Prop for Accept {
         ];
         let planned = prop_oneof![8 => 1u8..=3, 1 => 16u8..=18, 1 => 32u8..=34];
         let task = prop_oneof![4 => planned.clone().prop_map(TaskKind::Read), 2 => planned.prop_map(TaskKind::Startup), 3 => Just(TaskKind::Command), 1 => Just(TaskKind::LinkStatus), 1 => Just(TaskKind::Idle)];
-        (task, proptest::collection::vec(item, 1..8), 0u8..4, 0u8..3)
-            .prop_map(|(task, items, decode, back)| {
+        (
+            task,
+            proptest::collection::vec(item, 1..8),
+            0u8..4,
+            0u8..3,
+            prop_oneof![3 => Just(false), 1 => Just(true)],
+        )
+            .prop_map(|(task, items, decode, back, unsol_restart)| {
                 // long series: the expected fragments up to 0-2 before the last are delivered first, so that the
                 // generated items hit the positions around the wrap of the sequence number
                 let prefix = match task {
@@ -132,6 +142,7 @@ impl Prop for Accept {
                     items,
                     decode,
                     prefix,
+                    unsol_restart,
                 }
             })
             .boxed()
@@ -196,6 +207,14 @@ async fn run_case(case: &Case) -> CaseOut {
     let mut out = CaseOut::default();
     let mut rig = MasterRig::start(true, [case.decode, 0, 0, 0], 2048).await;
     let startup_mode = matches!(case.task, TaskKind::Startup(_));
+    let restart_iin = case.unsol_restart
+        && matches!(
+            case.task,
+            TaskKind::Idle | TaskKind::Read(_) | TaskKind::Command
+        );
+    if restart_iin {
+        out.label("unsolicited_responses_report_a_restart");
+    }
     let mut cfg_a = assoc_config(TIMEOUT);
     if startup_mode {
         cfg_a.startup_integrity_classes = Classes::all();
@@ -554,7 +573,7 @@ async fn run_case(case: &Case) -> CaseOut {
                             uns: true,
                             seq: unsol_seq,
                             func: func::UNSOLICITED_RESPONSE,
-                            iin: Some((0, 0)),
+                            iin: Some((if restart_iin { 0x80 } else { 0 }, 0)),
                             objects,
                         }
                     }
@@ -570,7 +589,9 @@ async fn run_case(case: &Case) -> CaseOut {
                 if repeated && unsol_ignored.contains(&unsol_n) {
                     out.label("unsol_ignored_then_repeated");
                 }
-                if integrity_complete {
+                // (an unsolicited response that does not ask for confirmation is not what IEEE 1815 prescribes: whether the
+                // master takes it is decided by observation, coherently - delivered at most once, never confirmed)
+                if integrity_complete && f.con {
                     // a repeat of a fragment that reached the handler is confirmed but not delivered again; a repeat
                     // of a fragment that was not accepted the first time is new to the handler
                     if !unsol_delivered.contains(&unsol_n) {
@@ -646,7 +667,33 @@ async fn run_case(case: &Case) -> CaseOut {
             }
         }
         // --- what the master transmitted in reaction ---
-        let tx = rig.take_requests();
+        let mut tx = rig.take_requests();
+        if restart_iin {
+            // the master clears the restart indication it has seen: acknowledged at once
+            let writes: Vec<u8> = tx
+                .iter()
+                .filter(|(_, d, f)| *d == OUT_A && f.func == func::WRITE && f.objects.starts_with(&[80, 1]))
+                .map(|(_, _, f)| f.seq)
+                .collect();
+            for seq in writes {
+                out.label("restart_indication_cleared");
+                rig.respond(
+                    OUT_A,
+                    &Fragment {
+                        fir: true,
+                        fin: true,
+                        con: false,
+                        uns: false,
+                        seq,
+                        func: func::RESPONSE,
+                        iin: Some((0, 0)),
+                        objects: vec![],
+                    },
+                );
+                rig.settle().await;
+                tx.extend(rig.take_requests());
+            }
+        }
         let confirms: Vec<&(u64, u16, Fragment)> = tx
             .iter()
             .filter(|(_, _, f)| f.func == func::CONFIRM)
